@@ -733,6 +733,8 @@ pub enum Ev {
     Restart { plan: ReadPlan },
     /// control only: Control::add_binary(name); the returned view is kept under `out`
     AddBinary { name: String, out: usize },
+    /// control only (when the file has no source paragraph yet): Control::add_source(name)
+    AddSource { name: String, out: usize },
     /// DEP-3 only: persist the header through PatchHeader::write into a faulting sink, reload from the durable image
     Persist { plan: WritePlan },
 }
@@ -990,6 +992,10 @@ impl Scenario for C15 {
                 text = paras.join("\n");
             }
         }
+        let from_scratch = kind == "control" && rng.chance(1, 10);
+        if from_scratch {
+            text = String::new();
+        }
         let mut model = segmenter::segment(&text).map(|s| segmenter::paragraphs(&s)).unwrap_or_default();
         let table = rows();
         let nsteps = 1 + rng.below(8);
@@ -1000,6 +1006,20 @@ impl Scenario for C15 {
             views.push((0, 0, "dep3::PatchHeader"));
         }
         let mut seq = 0usize;
+        if from_scratch {
+            // a control file built through the API; the binary may come first
+            let bin_first = rng.chance(1, 2);
+            if bin_first {
+                model.push(vec![("Package".to_string(), "firstbin".to_string())]);
+                events.push(Ev::AddBinary { name: "firstbin".into(), out: next });
+                views.push((next, model.len() - 1, "control::Binary"));
+                next += 1;
+            }
+            model.push(vec![("Source".to_string(), "newsrc".to_string())]);
+            events.push(Ev::AddSource { name: "newsrc".into(), out: next });
+            views.push((next, model.len() - 1, "control::Source"));
+            next += 1;
+        }
         for _ in 0..nsteps {
             seq += 1;
             let choice = rng.below(10);
@@ -1110,6 +1130,34 @@ impl Scenario for C15 {
         for ev in &c.events {
             obs.step();
             match ev {
+                Ev::AddSource { name, out } => {
+                    if l.model.iter().any(|p| p.iter().any(|e| e.0 == "Source")) {
+                        continue;
+                    }
+                    if let Doc::Ctl(ctl) = &mut l.doc {
+                        let before = ctl.to_string();
+                        probe::at("Control::add_source");
+                        obs.prestate = if l.model.is_empty() { "empty-file".into() } else { "binaries-first".into() };
+                        obs.count("op.add_source");
+                        let sv = ctl.add_source(name);
+                        l.model.push(vec![("Source".to_string(), name.clone())]);
+                        let para = l.model.len() - 1;
+                        if sv.name().as_deref() != Some(name.as_str()) {
+                            return Err(v("getter-after-setter", "Control::add_source", &obs.prestate.clone(), format!("add_source({name:?}) returned a view whose name() is {:?}", sv.name())));
+                        }
+                        l.views.insert(*out, (para, AnyView::CS(sv)));
+                        let after = doc_text(&l);
+                        match Deb822::from_str(&after) {
+                            Err(e) => return Err(v("restart-error", "Control::add_source", "new-paragraph", format!("after add_source the text {:?} does not re-read: {}", after, e.to_string().trim()))),
+                            Ok(d) => {
+                                let got: Vec<Vec<(String, String)>> = d.paragraphs().map(|p| p.items().collect()).collect();
+                                if norm_env(got.clone()) != norm_env(l.model.clone()) {
+                                    return Err(v("model-content", "Control::add_source", "new-paragraph", format!("after add_source({name:?}) on {:?} the text {:?} holds {:?}, expected {:?}", before, after, got, l.model)));
+                                }
+                            }
+                        }
+                    }
+                }
                 Ev::AddBinary { name, out } => {
                     if let Doc::Ctl(ctl) = &mut l.doc {
                         let before = ctl.to_string();
